@@ -173,6 +173,12 @@ pub fn run(ctx: &GCtx, spec: &Spec) -> i32 {
                 r.class_if(info.retyped > 0, "edit: field retyped");
                 r.class_if(info.reordered > 0, "edit: fields reordered");
             }
+            // memory-unsafe code under test can take the process down without unwinding: the
+            // orchestrator attributes such a death to the journaled case
+            if ctx.skip_case() {
+                return Ok(());
+            }
+            crate::journal(ctx, spec.prop, &rec, &json!({"sub": "roundtrip", "key": "process-died", "case": c}));
             match check_rt(doc, mt, entry, c, keep) {
                 Ok(chk) => {
                     let mut r = rec.borrow_mut();
